@@ -316,7 +316,7 @@ with frag_stat (s : stat) {struct s} : bool :=
   | SForIn ns _ es b _ => forallb frag_name ns && forallb frag_exp es && frag_block b
   | SAssign vars es _ =>
     forallb (fun v => match v with EName n _ => frag_name n | _ => false end) vars && forallb frag_exp es
-  | SLocal ns _ _ es _ => forallb frag_name ns && forallb frag_exp es && Nat.leb (length es) (length ns)
+  | SLocal ns _ _ es _ => forallb frag_name ns && forallb frag_exp es      (* any number of initialisers *)
   | SLocalFunc n _ f _ => frag_name n && match f with EFunc _ _ _ _ _ _ _ _ => frag_exp f | _ => false end
   end
 with frag_block (b : block) {struct b} : bool :=
